@@ -63,3 +63,24 @@ def control_c14():
     want = {("ctl_key_in_reg", "R14.1"), ("ctl_key_on_stack", "R14.2")}
     clean = not any(n == "ctl_clean" for (n, _r) in got)
     return {"ok": want <= got and clean, "missing": sorted(want - got), "clean_function_silent": clean, "flagged": sorted(got)}
+
+
+def control_c20():
+    import absint
+    import defined
+    os.makedirs(os.path.join(build.CACHE, "tmp"), exist_ok=True)
+    lib, tmp = build_control("c20_bad.asm")
+    got = set()
+    try:
+        for key, name in lib.entry_list:
+            f = lib.func(key)
+            p1 = absint.Interp(lib, lambda t: absint.SYSV, keep_regs="rsp").run(f)
+            di = defined.DefInterp(lib, f, p1, defined.DefInterp.sysv_entry(1), lambda *a: None)
+            r = di.run()
+            for (i, kind, what) in r.reports:
+                got.add((name, kind))
+    finally:
+        shutil.rmtree(tmp, ignore_errors=True)
+    want = {("ctl_undef_addr", "address"), ("ctl_undef_flags", "flags"), ("ctl_undef_store", "store"), ("ctl_undef_spill", "address")}
+    clean = not any(n == "ctl_partial_ok" for (n, _k) in got)
+    return {"ok": want <= got and clean, "missing": sorted(want - got), "clean_function_silent": clean, "flagged": sorted(got)}
